@@ -7,7 +7,7 @@ import time
 from . import common as C
 from . import engine_checks as E
 
-NCELLS = 41
+NCELLS = 45
 EXTRA_LISTS = []  # the catalogue already contains plain/fixed/varying/mixed x with/without AlignAs x trivial/non-trivial
 
 
